@@ -98,6 +98,14 @@ func genTargetSpecs(t *simrt.Tape) []tgtSpec {
 		for j := 0; j < nh; j++ {
 			s.hdr = append(s.hdr, [2]string{tHdrKeys[t.Choose(len(tHdrKeys))], tHdrVals[t.Choose(len(tHdrVals))]})
 		}
+		if t.Prob(1, 40) {
+			// a line longer than the 64 KiB an I/O buffer usually holds: a long token in a header, a long query
+			if t.Prob(1, 2) {
+				s.hdr = append(s.hdr, [2]string{"X-Long-Token", strings.Repeat("t0k3n", 14000)})
+			} else {
+				s.url += "&blob=" + strings.Repeat("abcdefgh", 9000)
+			}
+		}
 		s.bodyFile = -1
 		if t.Prob(1, 4) {
 			s.bodyFile = t.Choose(len(bodyFiles))
